@@ -383,6 +383,12 @@ def build(case, with_calls=True):
             text = f"    call {p['name']}(" + ", ".join(kw) + ")"
             calls.append(("keyword-permuted", p, len(lines), text, kw))
             lines.append(text)
+            # keyword arguments whose values contain relational operators spelled with '=' at the call's own level
+            rel = [["ci>=cj", "ci==3", "cr(1)/=2.0", "ci<=cj"][j % 4] for j in range(nd)]
+            kw = [f"{p['dummies'][j]['name']}={rel[j]}" for j in order]
+            text = f"    call {p['name']}(" + ", ".join(kw) + ")"
+            calls.append(("keyword-relational-value", p, len(lines), text, kw))
+            lines.append(text)
             npos = p.get("npos", 0)
             if npos:
                 mixed = plain[:npos] + [f"{p['dummies'][j]['name']}={plain[j]}" for j in order if j >= npos]
@@ -529,6 +535,8 @@ def check_case(ctx, case, scratch):
                 # a keyword argument is identified by the text before the cursor: place the cursor in the value
                 eq = a.index("=")
                 cur = pos + eq + 1 + max(1, (len(a) - eq - 1) // 2)
+                if kind == "keyword-relational-value":
+                    cur = pos + len(a)  # at the end of the value, past the operator
             resp, _ = srv.request("textDocument/signatureHelp", pos_params(path, ln, cur))
             res = resp.get("result")
             is_kw = "=" in a and a.split("=")[0] in [d["name"] for d in p["dummies"]] and kind not in ("positional", "plain")
@@ -554,7 +562,7 @@ def check_case(ctx, case, scratch):
                     why = "argument-contains-" + ("comma-in-string" if any("'" in x and "," in x for x in pr) and "'" in a else
                                                   ("parentheses" if any("(" in x and "," in x for x in pr) else
                                                    ("comma-in-string" if any("'" in x and "," in x for x in pr) else "plain")))
-                    if kind in ("plain", "keyword-permuted", "positional-then-keyword"):
+                    if kind in ("plain", "keyword-permuted", "positional-then-keyword", "keyword-relational-value"):
                         why = "plain-arguments"
                     add(f"signature:{kind}:active-parameter:{why}", f"{text.strip()!r} cursor in {a!r}: activeParameter {res.get('activeParameter')} != {want_idx}")
             pos += len(a) + 2
